@@ -347,3 +347,24 @@ def c15_bounded(tier, seed):
     res["trusted"] += ["fontTools.misc.transform.Transform (bounded conformance: C15 hook)", "fontTools.pens.transformPen.TransformPointPen (bounded: C15 observer)",
                        "fontTools.pens.recordingPen.RecordingPointPen (bounded: C15 observer)"]
     return res
+
+
+def replay(path):
+    """`.venv/bin/python -m vcheck.hooks.c15 <replay.json>` — re-run one observer case"""
+    import json
+
+    with open(path) as f:
+        pl = json.load(f)
+    case = pl.get("case")
+    print(json.dumps({k: v for k, v in pl.items() if k != "case"}, indent=1, default=str)[:2000])
+    if case is None:
+        return 0
+    bad = OBSERVERS[case["which"]](case)
+    print("replay result:", bad[:2] if bad else "agrees with the reference semantics")
+    return 1 if bad else 0
+
+
+if __name__ == "__main__":
+    import sys
+
+    sys.exit(replay(sys.argv[1]))
